@@ -28,7 +28,14 @@
  *   obsblk observe registration + two notifications + cancel of a resource whose 2500-byte body needs 3 blocks
  *   cache  coap_cache_ignore_options (twice), coap_cache_derive_key(_w_ignore), coap_new_cache_entry with recorded PDU and
  *          application data + free callback (in a request handler and directly), lookup by key / by PDU, expiry, tear-down
- *   async  coap_register_async with an indefinite delay + coap_async_trigger, and with a 1.5 s delay run by the timer
+ *   async  coap_register_async with an indefinite delay + coap_async_trigger, and with a 1.5 s delay run by the timer (GET,
+ *          then a PUT with a payload that the delayed call must still see)
+ *   obsre  observer life cycle: FETCH registration with payload, the same request under a new token (replacement through
+ *          the cache key), a second subscription (GET with query), deregistration by a token the server never saw,
+ *          coap_delete_resource while observed
+ *
+ * after the canary (every scenario): refs=<ok | list of sessions whose reference count differs from the number of their
+ * holders> idle=<server sessions without holder that survive the session timeout>
  *
  * output (alloc):
  *   n=<requests seen> fail=<type>@<hex site>[,<type>@<hex site>] out=<visible outcome> sends=<per coap_send: ok|inv + f|q>
@@ -42,8 +49,11 @@
  *   L<num>:<len> (coap_new_optlist + coap_insert_optlist)  P (coap_add_optlist_pdu)  X (coap_delete_optlist)
  *   S<len> s<len> b<len> (coap_new_string / coap_new_str_const / coap_new_bin_const)  F (delete all strings)
  *   Vc Vn (coap_send of the current PDU as CON / NON on an established UDP client session)  W0 W1 (socket write ok / fails)
+ *   A<toklen> (coap_add_observer(/obs, the server's session for the client, token 01 02 .. of that length, request = the current PDU))
+ *   B<toklen> (coap_delete_observer(/obs, that session, token))
  * output (ahelp):  n=<requests> rc=<per op> pdu=<alloc>/<max>/<max_opt>/<data offset|->/<hex of token[0..used)> ol=<nums> str=<n>
- *                  q=<sendqueue>/<delayqueue>/<con_active> T <trace inside the script> | A <whole trace> | lsan=<0|1>
+ *                  q=<sendqueue>/<delayqueue>/<con_active> obs=<session ref>/<token lengths of the subscriptions> sp=<request kept with
+ *                  the first subscription, as pdu=> T <trace inside the script> | A <whole trace> | lsan=<0|1>
  *
  * link: SIM_WRAPS + --wrap=coap_malloc_type,--wrap=coap_realloc_type,--wrap=coap_free_type,--wrap=epoll_wait
  */
@@ -341,6 +351,12 @@ static coap_response_t on_response(coap_session_t *session, const coap_pdu_t *se
     coap_bin_const_t tk = coap_pdu_get_token(rcvd);
     int code = coap_pdu_get_code(rcvd);
     int canary = tk.length == 2 && tk.s[0] == 0xca && tk.s[1] == 0xfe;
+    /* obsre: token 67 xx, bit 7 of xx = registered by a FETCH with payload "Q1": the representation must show it */
+    if (tk.length == 2 && tk.s[0] == 0x67 && COAP_RESPONSE_CLASS(code) == 2 && coap_get_data(rcvd, &len, &data) && len == 3 &&
+        data[0] == 'v' && data[2] != ((tk.s[1] & 0x80) ? 'Q' : '-')) { c_body_bad++; out_put("lostbody:%02x", tk.s[1]); }
+    /* async: token 66 03 = the PUT with payload "P1": the delayed answer must show it */
+    if (tk.length == 2 && tk.s[0] == 0x66 && tk.s[1] == 0x03 && COAP_RESPONSE_CLASS(code) == 2 && coap_get_data(rcvd, &len, &data) &&
+        len == 3 && data[0] == 'a' && data[2] != 'P') { c_body_bad++; out_put("lostbody:66"); }
     /* an error code (4.08 from the client's own block layer, 5.00) with the payload of one block is not a body */
     if (exp_strict ? code == COAP_RESPONSE_CODE_CONTENT && !canary : COAP_RESPONSE_CLASS(code) == 2) {
       if (!coap_get_data_large(rcvd, &len, &data, &off, &total)) { len = 0; off = 0; total = 0; }
@@ -481,7 +497,28 @@ static void hnd_async(coap_resource_t *r, coap_session_t *s, const coap_pdu_t *r
   }
   if (a == g_async) g_async = NULL;                    /* libcoap frees it after this call */
   coap_pdu_set_code(rsp, COAP_RESPONSE_CODE_CONTENT);
-  if (!coap_async_get_app_data(a) || !coap_add_data(rsp, 2, (const uint8_t *)"as")) coap_pdu_set_code(rsp, COAP_RESPONSE_CODE_INTERNAL_ERROR);
+  {
+    /* the delayed call gets the copy of the request libcoap kept: the answer shows the first byte of its payload ('-' = none) */
+    size_t len = 0;
+    const uint8_t *d = NULL;
+    uint8_t v[3] = {'a', 's', '-'};
+    if (coap_get_data(req, &len, &d) && len) v[2] = d[0];
+    if (!coap_async_get_app_data(a) || !coap_add_data(rsp, 3, v)) coap_pdu_set_code(rsp, COAP_RESPONSE_CODE_INTERNAL_ERROR);
+  }
+}
+
+/* observable resource for GET and FETCH: the representation shows the first byte of the request's payload ('-' = none), so a
+ * notification tells whether the request kept with the subscription still has the body it was registered with */
+static void hnd_obsf(coap_resource_t *r, coap_session_t *s, const coap_pdu_t *req, const coap_string_t *q, coap_pdu_t *rsp) {
+  size_t len = 0;
+  const uint8_t *d = NULL;
+  uint8_t v[3];
+  (void)r; (void)s; (void)q;
+  s_req++;
+  v[0] = 'v'; v[1] = (uint8_t)('0' + obs_val);
+  v[2] = coap_get_data(req, &len, &d) && len ? d[0] : '-';
+  coap_pdu_set_code(rsp, COAP_RESPONSE_CODE_CONTENT);
+  if (!coap_add_data(rsp, 3, v)) coap_pdu_set_code(rsp, COAP_RESPONSE_CODE_INTERNAL_ERROR);
 }
 
 static int add_res(const char *path, coap_request_t m, coap_method_handler_t h, int observable, coap_resource_t **out) {
@@ -890,6 +927,53 @@ static void scn_obsblk(void) {
   out_put("notify%d", coap_resource_notify_observers(r, NULL));
   settle(300000);
 }
+/* observer life cycle on one resource: FETCH registration with a payload (kept with the subscription), the same request
+ * again under a new token (replaces the first one: same cache key), a GET registration with a query (second subscription),
+ * deregistration with a token the server never saw (found through the cache key), deletion of the resource while observed */
+static unsigned subs_of(coap_resource_t *r) {
+  unsigned n = 0;
+  coap_subscription_t *s;
+  LL_FOREACH(r->subscribers, s) n++;
+  return n;
+}
+static void obsre_send(int code, int tokb, int observe, const char *query, int payload) {
+  uint8_t t[2], one = 1;
+  coap_pdu_t *p;
+  t[0] = 0x67; t[1] = (uint8_t)tokb;
+  p = new_req(COAP_MESSAGE_CON, code, t, 2, NULL);
+  if (!p) { out_put("pdu-fail"); return; }
+  if ((observe >= 0 && !coap_add_option(p, COAP_OPTION_OBSERVE, observe ? 1 : 0, &one)) ||
+      !coap_add_option(p, COAP_OPTION_URI_PATH, 4, (const uint8_t *)"obsf") ||
+      (payload && !coap_add_option(p, COAP_OPTION_CONTENT_FORMAT, 0, NULL)) ||        /* RFC 8132 2.3.1: FETCH needs one */
+      (query && !coap_add_option(p, COAP_OPTION_URI_QUERY, strlen(query), (const uint8_t *)query)) ||
+      (payload && !coap_add_data(p, 2, (const uint8_t *)"Q1"))) { out_put("opt-fail"); coap_delete_pdu(p); return; }
+  tracked_send(cs, p);
+  settle(120000);
+}
+static void scn_obsre(void) {
+  coap_resource_t *r = NULL;
+  w_cli_block = 0;           /* libcoap's client block layer would put a fresh Request-Tag into every request: never the same cache key */
+  if (!world_up(0, 0) || !add_res("obsf", COAP_REQUEST_GET, hnd_obsf, 1, &r)) { out_put("setup-fail"); return; }
+  coap_register_request_handler(r, COAP_REQUEST_FETCH, hnd_obsf);
+  obsre_send(COAP_REQUEST_CODE_FETCH, 0x81, 0, NULL, 1);
+  out_put("subs%u", subs_of(r));
+  obs_val++;
+  out_put("notify%d", coap_resource_notify_observers(r, NULL));
+  sim_now += 10; settle(120000);
+  obsre_send(COAP_REQUEST_CODE_FETCH, 0x82, 0, NULL, 1);
+  obsre_send(COAP_REQUEST_CODE_GET, 0x03, 0, "x=1", 0);
+  out_put("subs%u", subs_of(r));
+  obs_val++;
+  out_put("notify%d", coap_resource_notify_observers(r, NULL));
+  sim_now += 10; settle(120000);
+  obsre_send(COAP_REQUEST_CODE_GET, 0x04, 1, "x=1", 0);
+  out_put("subs%u", subs_of(r));
+  obs_val++;
+  out_put("notify%d", coap_resource_notify_observers(r, NULL));
+  sim_now += 10; settle(120000);
+  out_put("delres%d", coap_delete_resource(srv, r));
+  settle(120000);
+}
 static void scn_cache(void) {
   static const uint16_t ign1[2] = {COAP_OPTION_ACCEPT, COAP_OPTION_URI_QUERY}, ign2[3] = {COAP_OPTION_ACCEPT, COAP_OPTION_ETAG, COAP_OPTION_RTAG};
   coap_pdu_t *p, *q = NULL;
@@ -933,7 +1017,9 @@ static void scn_cache(void) {
 }
 static void scn_async(void) {
   coap_pdu_t *p;
-  if (!world_up(0, 0) || !add_res("async", COAP_REQUEST_GET, hnd_async, 0, NULL)) { out_put("setup-fail"); return; }
+  coap_resource_t *r = NULL;
+  if (!world_up(0, 0) || !add_res("async", COAP_REQUEST_GET, hnd_async, 0, &r)) { out_put("setup-fail"); return; }
+  coap_register_request_handler(r, COAP_REQUEST_PUT, hnd_async);
   p = new_req(COAP_MESSAGE_CON, COAP_REQUEST_CODE_GET, (const uint8_t *)"\x66\x01", 2, "async");
   if (p && !coap_add_option(p, COAP_OPTION_URI_QUERY, 1, (const uint8_t *)"t")) { coap_delete_pdu(p); p = NULL; }
   if (!p) out_put("pdu-fail"); else tracked_send(cs, p);
@@ -942,6 +1028,13 @@ static void scn_async(void) {
   if (g_async) coap_async_trigger(g_async);
   settle(120000);
   p = new_req(COAP_MESSAGE_CON, COAP_REQUEST_CODE_GET, (const uint8_t *)"\x66\x02", 2, "async");
+  if (!p) out_put("pdu-fail"); else tracked_send(cs, p);
+  settle(120000);
+  sim_now += 2000;
+  settle(120000);
+  /* a request WITH a body (PUT "P1"), delayed 1.5 s: the copy kept for the delayed call must still have the body */
+  p = new_req(COAP_MESSAGE_CON, COAP_REQUEST_CODE_PUT, (const uint8_t *)"\x66\x03", 2, "async");
+  if (p && !coap_add_data(p, 2, (const uint8_t *)"P1")) { coap_delete_pdu(p); p = NULL; }
   if (!p) out_put("pdu-fail"); else tracked_send(cs, p);
   settle(120000);
   sim_now += 2000;
@@ -962,10 +1055,59 @@ static int canary_once(void) {
   return 0;
 }
 
+/* ------------------------------------------------------------------ session references: every one has a holder
+ * A reference on a coap_session_t is held by the application (the client session cs: one), by a subscription of an
+ * observable resource, by an async entry or by a node of the context's send queue (coap_wait_ack) -- by nothing else once
+ * a call into the library has returned.  A reference without holder pins the session for the life of the endpoint (never
+ * reclaimed as idle: a leak that tear-down hides, coap_free_endpoint drops stale references); a holder without reference is
+ * a use after free waiting for the idle timeout. */
+static unsigned holders_of(coap_context_t *c, coap_session_t *s) {
+  unsigned n = 0;
+  coap_queue_t *q;
+  coap_subscription_t *sub;
+  coap_async_t *a;
+  LL_FOREACH(c->sendqueue, q) if (q->session == s) n++;
+#if COAP_SERVER_SUPPORT
+  {
+    RESOURCES_ITER(c->resources, r) { LL_FOREACH(r->subscribers, sub) if (sub->session == s) n++; }
+  }
+  if (c->unknown_resource) LL_FOREACH(c->unknown_resource->subscribers, sub) if (sub->session == s) n++;
+  if (c->proxy_uri_resource) LL_FOREACH(c->proxy_uri_resource->subscribers, sub) if (sub->session == s) n++;
+#endif
+#if COAP_ASYNC_SUPPORT
+  LL_FOREACH(c->async_state, a) if (a->session == s) n++;
+#endif
+  if (s == cs) n++;
+  return n;
+}
+static char rb[256];
+static size_t rblen;
+static void refs_put(char who, int idx, unsigned ref, unsigned holders) {
+  int n = snprintf(rb + rblen, sizeof(rb) - rblen, "%s%c%d:%u/%u", rblen ? "," : "", who, idx, ref, holders);
+  if (n > 0 && rblen + (size_t)n < sizeof(rb)) rblen += (size_t)n;
+}
+/* ref == holders for every session of both contexts; then the server's sessions that nothing holds must be reclaimed once
+ * they have been idle for the session timeout (virtual time): returns the number of those that are still there */
+static int refs_idle_check(void) {
+  coap_session_t *s, *tmp;
+  coap_endpoint_t *e;
+  int i = 0, left = 0;
+  rblen = 0; rb[0] = 0;
+  if (cli) { SESSIONS_ITER(cli->sessions, s, tmp) { unsigned h = holders_of(cli, s); if (s->ref != h) refs_put('C', i, s->ref, h); i++; } }
+  i = 0;
+  if (srv) LL_FOREACH(srv->endpoint, e) { SESSIONS_ITER(e->sessions, s, tmp) { unsigned h = holders_of(srv, s); if (s->ref != h) refs_put('S', i, s->ref, h); i++; } }
+  if (!srv) return 0;
+  sim_now += (coap_tick_t)(COAP_DEFAULT_SESSION_TIMEOUT + 1) * COAP_TICKS_PER_SECOND;
+  coap_io_prepare_epoll(srv, sim_now);
+  LL_FOREACH(srv->endpoint, e) { SESSIONS_ITER(e->sessions, s, tmp) if (s->type == COAP_SESSION_TYPE_SERVER && !s->delayqueue && !holders_of(srv, s)) left++; }
+  return left;
+}
+
 static const struct { const char *name; void (*fn)(void); } scns[] = {
   {"uri", scn_uri}, {"pdu", scn_pdu}, {"rr", scn_rr}, {"b1", scn_b1}, {"b2", scn_b2}, {"obs", scn_obs},
   {"setup", scn_setup}, {"osc", scn_osc}, {"h508", scn_h508},
   {"wkc", scn_wkc}, {"b1raw", scn_b1raw}, {"b2raw", scn_b2raw}, {"obsblk", scn_obsblk}, {"cache", scn_cache}, {"async", scn_async},
+  {"obsre", scn_obsre},
 };
 
 static void on_alarm(int sig) {
@@ -1031,7 +1173,7 @@ static void do_alloc(char **w, int n) {
   int si = -1;
   const char *canary;
   char cbuf[48];
-  int same = 0, consumed_bad = -1;
+  int same = 0, consumed_bad = -1, idle_left = 0;
   for (size_t i = 0; i < sizeof(scns) / sizeof(scns[0]); i++) if (!strcmp(w[1], scns[i].name)) si = (int)i;
   if (si < 0 || n < 3 || n > 4) { printf("bad-op"); return; }
   begin_line();
@@ -1053,9 +1195,11 @@ static void do_alloc(char **w, int n) {
     settle(400000);
     rc = canary_once();
     if (rc) { snprintf(cbuf, sizeof(cbuf), "fail%d", rc); canary = cbuf; } else canary = "ok";
+    idle_left = refs_idle_check();
     world_down();
   } else {
     int rc;
+    idle_left = refs_idle_check();
     world_down();
     sim_reset(); sim_tx_hook = on_tx; sim_log_enabled = 0; prng_script();
     if (!world_up(0, 0)) canary = "fail-setup";
@@ -1073,6 +1217,7 @@ static void do_alloc(char **w, int n) {
   printf(" out=%s sends=%s pdu_consumed=", oblen ? ob : "-", sblen ? sb : "-");
   if (consumed_bad < 0) printf("yes"); else printf("no:%d", consumed_bad);
   printf(" canary=%s:%s", canary, same ? "same" : "fresh");
+  printf(" refs=%s idle=%d", rblen ? rb : "ok", idle_left);
   end_line();
 }
 
@@ -1082,7 +1227,8 @@ static void do_ahelp(char **w, int n) {
   coap_pdu_t *pdu = NULL;
   coap_optlist_t *ol = NULL;
   void *strs[MAXSTR];
-  int nstr = 0, first = 1, nmid = 0;
+  int nstr = 0, first = 1, nmid = 0, want_ss = 0;
+  coap_session_t *ss = NULL;       /* the server's session for the client */
   static uint8_t val[70000];
   size_t win_start;
   char *wtrace;
@@ -1092,7 +1238,7 @@ static void do_ahelp(char **w, int n) {
     const char *e = w[i];
     char *end;
     if (!e[0]) { printf("bad-op"); return; }
-    if (strchr("ITDRCSsb", e[0])) { if (!e[1]) { printf("bad-op"); return; } strtoul(e + 1, &end, 10); if (*end) { printf("bad-op"); return; } }
+    if (strchr("ITDRCSsbAB", e[0])) { if (!e[1]) { printf("bad-op"); return; } strtoul(e + 1, &end, 10); if (*end) { printf("bad-op"); return; } }
     else if (e[0] == 'O' || e[0] == 'L') {
       if (!e[1]) { printf("bad-op"); return; }
       strtoul(e + 1, &end, 10);
@@ -1112,6 +1258,18 @@ static void do_ahelp(char **w, int n) {
   w_block = 0;
   if (!world_up(0, 0)) { printf("setup-fail"); world_down(); w_block = 1; return; }
   w_block = 1;
+  /* scripts with observer ops: the server session exists before the script starts as well (one NON exchange) */
+  for (int i = 3; i < n; i++) if (w[i][0] == 'A' || w[i][0] == 'B') want_ss = 1;
+  if (want_ss) {
+    coap_pdu_t *p = new_req(COAP_MESSAGE_NON, COAP_REQUEST_CODE_GET, (const uint8_t *)"\x70", 1, "r");
+    coap_session_t *s, *tmp;
+    sim_tx_hook = on_tx;
+    if (p) coap_send(cs, p);
+    settle(10000);
+    sim_tx_hook = NULL; npending = 0;
+    SESSIONS_ITER(ep->sessions, s, tmp) ss = s;
+    if (!ss || ss->ref != 0 || !r_obs) { printf("setup-fail"); world_down(); return; }
+  }
   af_k1 = (unsigned)strtoul(w[1], NULL, 10);
   af_k2 = (unsigned)strtoul(w[2], NULL, 10);
   tr_on = 1; tr_lenient = 1;
@@ -1147,6 +1305,18 @@ static void do_ahelp(char **w, int n) {
       break;
     case 'F': for (int j = 0; j < nstr; j++) coap_delete_string((coap_string_t *)strs[j]); nstr = 0; strcpy(rcs, "1"); break;
     case 'W': sim_send_result_override = e[1] == '1' ? -1 : 0; strcpy(rcs, "1"); break;
+    case 'A':
+      if (pdu && ss && a <= sizeof(val)) {
+        coap_bin_const_t tk = { a, val };
+        snprintf(rcs, sizeof(rcs), "%d", coap_add_observer(r_obs, ss, &tk, pdu) != NULL);
+      }
+      break;
+    case 'B':
+      if (ss && a <= sizeof(val)) {
+        coap_bin_const_t tk = { a, val };
+        snprintf(rcs, sizeof(rcs), "%d", coap_delete_observer(r_obs, ss, &tk));
+      }
+      break;
     case 'V':
       if (pdu) {
         unsigned ser = tr_serial_of(pdu);
@@ -1173,6 +1343,17 @@ static void do_ahelp(char **w, int n) {
   if (!ol) printf("-");
   for (coap_optlist_t *o = ol; o; o = o->next) printf("%s%u:%zu", o == ol ? "" : ",", (unsigned)o->number, o->length);
   printf(" str=%d q=%u/%u/%u", nstr, sim_sendq_len(cli), sim_delayq_len(cs), sim_con_active(cs));
+  /* session->ref / token lengths of the subscriptions in list order / the request kept with the first one */
+  printf(" obs=%u/", ss ? ss->ref : 0);
+  if (!ss || !r_obs->subscribers) printf("- sp=none");
+  else {
+    coap_subscription_t *sub;
+    const coap_pdu_t *sp = r_obs->subscribers->pdu;
+    LL_FOREACH(r_obs->subscribers, sub) printf("%s%zu", sub == r_obs->subscribers ? "" : ",", sub->pdu->actual_token.length);
+    printf(" sp=%zu/%zu/%u/", sp->alloc_size, sp->max_size, (unsigned)sp->max_opt);
+    if (sp->data) printf("%zu/", (size_t)(sp->data - sp->token)); else printf("-/");
+    h_puthex(stdout, sp->token, sp->used_size);
+  }
   win_start = 0;
   wtrace = tr_len ? strdup(tr_buf) : strdup("-");
   printf(" T %s", wtrace);
